@@ -13,12 +13,16 @@ of ``pp.Tpsa`` (``Tpsa.assemble_matrix_rhs`` itself raises NotImplementedError b
     A = div face_discr - accum,   b = -div rhs_matrix u_b,   x = A^{-1} b = [u, r, p]
 
 requires  sd a valid 2-D/3-D grid (Cartesian, structured simplex, node-perturbed / affine image), constant Lame
-          parameters (mu, lambda > 0), each boundary face entirely Dirichlet or Neumann, >= 1 Dirichlet face (so that the
-          system is uniquely solvable); boundary data consistent with the translation t: u_b = t on Dirichlet faces,
-          zero traction on Neumann faces.
-ensures   (1) stress (1 (x) t) + bound_stress u_b = 0 on every face;
-          (2) the solved system has u = t in every cell, r = 0, p = 0.
-          Both are linear in t: the basis {e_x, e_y(, e_z)} covers all translations.
+          parameters (mu, lambda > 0), each boundary face entirely Dirichlet or Neumann, >= 1 Dirichlet face; boundary data
+          consistent with the translation t: u_b = t on Dirichlet faces, zero traction on Neumann faces.
+ensures   (1)  stress (1 (x) t) + bound_stress u_b = 0 on every face;
+          (2a) the state [u = t in every cell, r = 0, p = 0] satisfies A x = b;
+          (2b) requires additionally that A is regular (cond < 1e8): the solve returns exactly that state.
+               Observation on the unchanged tree: with a *single* Dirichlet face the two-point system is singular (the
+               discrete rotation about that face centre is a null mode: 1 zero singular value in 2-D, 3 in 3-D), so "the
+               solution" is not defined there; such cases are outside the hypothesis of (2b) (they still must pass (1), (2a))
+               and are counted in the evidence (cases_with_singular_system_solve_clause_not_applicable).
+          All clauses are linear in t: the basis {e_x, e_y(, e_z)} covers all translations.
 
 Detection power (scratch copy, one mutant at a time, POREPY_SRC=<copy>): see MUTANTS below.
 """
@@ -37,7 +41,11 @@ META = {
 }
 
 MUTANTS = """
-  (filled from the actual runs, see end of docstring block)
+  M1 tpsa.py _vector_laplace_matrices: ``trm_bnd[dir_faces] = trm_nd[dir_faces]`` -> ``0.5 * trm_nd[dir_faces]``
+       (Dirichlet boundary coefficient no longer matches the cell coefficient)           caught by (1) and (2a)
+  M2 tpsa.py discretize: bound_rotation_displacement ``- filters.dir_pass_nd`` -> ``+ filters.dir_pass_nd``   caught by (2a) (angular momentum rows)
+  M3 tpsa.py discretize: bound_mass_displacement ``+ filters.dir_pass_nd`` dropped                              caught by (2a) (solid mass rows)
+  M4 tpsa.py discretize: ``rotation_displacement = -Rn_bar @ c2f`` -> ``+Rn_bar @ c2f``                          caught by (2a)
 """
 
 import warnings
@@ -125,7 +133,8 @@ def bc_layouts(rng, nb, n_random):
     return out
 
 
-def evaluate(pp, spec, mu, lam, layout):
+def evaluate(pp, spec, mu, lam, layout, info=None):
+    info = {} if info is None else info
     import scipy.sparse as sps
 
     g = build_grid(pp, spec)
@@ -167,6 +176,10 @@ def evaluate(pp, spec, mu, lam, layout):
     hmin = np.linalg.norm(g.face_centers[:, cf.row] - g.cell_centers[:, cf.col], axis=0).min()
     sscale = 2 * (mu + lam) * g.face_areas.max() / hmin
     bad = []
+    sv = np.linalg.svd(A, compute_uv=False)
+    cond = sv[0] / max(sv[-1], 1e-300)
+    regular = cond < 1e8
+    info["regular"] = bool(regular)
     for i in range(nd):
         t = np.eye(nd)[i]
         ub = np.zeros((nd, nf))
@@ -179,18 +192,24 @@ def evaluate(pp, spec, mu, lam, layout):
             kind = "interior" if f not in set(bf.tolist()) else ("Dirichlet" if is_dir[f] else "Neumann")
             bad.append((O_STRESS, f"t=e_{i}: face {f} ({kind}) component {k % nd}: stress {s[k]!r} (scale {sscale:.2e})"))
         b = -(div @ (rhsm @ ub.ravel("F")))
-        try:
-            x = np.linalg.solve(A, b)
-        except np.linalg.LinAlgError as e:
-            bad.append((O_SOLVE, f"t=e_{i}: system singular: {e}"))
-            continue
         exp = np.concatenate([uc, np.zeros(n_rot_c + nc)])
-        cond_allow = 1e-8
+        # (2a) the translation state solves the assembled system (meaningful also when A is singular)
+        res = np.abs(A @ exp - b)
+        if res.max() > 1e-10 * max(sscale, np.abs(A).max()):
+            k = int(res.argmax())
+            what = "momentum" if k < nd * nc else ("angular momentum" if k < nd * nc + n_rot_c else "solid mass")
+            bad.append((O_SOLVE, f"t=e_{i}: [t,0,0] does not satisfy the system: residual {res[k]!r} in {what} equation {k}"))
+            continue
+        # (2b) requires: the system is regular (a single Dirichlet face leaves the discrete rotation about that face free: the
+        # two-point system is then singular and 'the solution' is not defined) -> unique solution must be [t,0,0]
+        if not regular:
+            continue
+        x = np.linalg.solve(A, b)
         err = np.abs(x - exp)
-        if not np.all(np.isfinite(x)) or err.max() > cond_allow:
+        if not np.all(np.isfinite(x)) or err.max() > 1e-12 * cond * 10 + 1e-10:
             k = int(np.nanargmax(err))
             what = "displacement" if k < nd * nc else ("rotation" if k < nd * nc + n_rot_c else "solid pressure")
-            bad.append((O_SOLVE, f"t=e_{i}: unknown {k} ({what}) = {x[k]!r}, expected {exp[k]!r}"))
+            bad.append((O_SOLVE, f"t=e_{i}: unknown {k} ({what}) = {x[k]!r}, expected {exp[k]!r} (cond {cond:.1e})"))
     return bad
 
 
@@ -220,6 +239,7 @@ def run(rep):
         bound="2-D <= 5x4 cells, 3-D <= 3x2x2 hexahedra / 48 tetrahedra; perturbation <= 0.25 h; " + ("2" if quick else "5") + " random layouts",
         exhaustive=False,
     ) as sw:
+        n_singular = 0
         for spec in grid_specs(pp, rng, quick):
             g = build_grid(pp, spec)
             if not cells_valid(g):
@@ -230,11 +250,17 @@ def run(rep):
                 for lname, layout in bc_layouts(rng, nb, 2 if quick else 5):
                     key = (spec["kind"], tuple(spec["n"]), str(spec["pert"]), hash(str(spec["nodes"])), tname, layout)
                     trivial = spec["kind"] == "cart" and spec["pert"] == 0 and lname == "all-dir"
+                    info = {}
+                    res = evaluate(pp, spec, mu, lam, layout, info)
+                    if not info.get("regular", True):
+                        n_singular += 1
                     sw.case(key, nontrivial=not trivial,
-                            sample={"grid": {k: v for k, v in spec.items() if k != "nodes"}, "lame": [mu, lam], "layout": layout})
-                    for ob, detail in evaluate(pp, spec, mu, lam, layout):
+                            sample={"grid": {k: v for k, v in spec.items() if k != "nodes"}, "lame": [mu, lam], "layout": layout,
+                                    "system_regular": info.get("regular")})
+                    for ob, detail in res:
                         rep.violation(ob, _signature(spec, lname), inputs={"grid": spec, "mu": mu, "lam": lam, "layout": layout},
                                       detail=detail, confirmed=True)
+        rep.extra["cases_with_singular_system_solve_clause_not_applicable"] = n_singular
 
 
 def replay(data):
